@@ -51,6 +51,11 @@ func vfC07Oracle(in *vfGWInst, evFull string, pre, post *vfSnap) {
 			if _, ok := post.Peers[p]; !ok {
 				in.bad("c07:mesh-not-connected", "mesh[%s] contains %s which is not a connected router peer", t, p)
 			}
+			// "no backed-off peer is ever added", as a state invariant: whoever is in the mesh has no running backoff
+			// (a peer pruned and re-added within one heartbeat is a member before and after, but not innocent)
+			if rem, ok := post.Backoff[t][p]; ok && rem > 0 {
+				in.bad("c07:mesh-member-backed-off", "%s is in mesh[%s] with %v of backoff still to run", p, t, rem)
+			}
 		}
 	}
 	for t := range joined {
@@ -297,6 +302,13 @@ func vfC07Scenarios(thorough bool) []*vfGWScenario {
 	// S3: opportunistic grafting every tick
 	mk("oppgraft", "d2og", p6[:5], append(connAll(p6[:5], true), "join:t"),
 		[]string{"hb", "score:a:2", "score:c:2", "score:e:2", "score:b:-1", "graft:e:t", "prune:a:t", "adv:5000"}, d)
+	// S3a: a heartbeat that cuts an over-subscribed mesh AND grafts opportunistically (every tick), from a state
+	// without any backoff entry for the topic; distinct scores below the opportunistic threshold, so that which
+	// members survive the cut (the explorer's shuffle) decides who is above the median afterwards
+	p6o := append([]vfPeerCfg{}, p6...)
+	p6o[4].Outbound, p6o[5].Outbound = true, true // e and f are accepted beyond Dhi: nobody is refused, no backoff entry yet
+	mk("over-oppgraft", "d4og", p6o, append(graftAll(p6o), "score:a:0.8", "score:b:0.6", "score:c:0.4", "score:d:0.2", "score:e:0.1"),
+		[]string{"hb", "score:f:0.7", "score:a:-1", "prune:b:t", "graft:b:t", "adv:5000"}, d)
 	// S3b: zero periods for opportunistic grafting / direct connect (accepted by parameter validation)
 	for _, ps := range []string{"d2og0", "d2dc0"} {
 		mk("zero-period-"+ps, ps, p4, connAll(p4, true), []string{"join:t", "leave:t", "hb", "graft:a:t", "prune:a:t", "score:a:-1", "score:b:2"}, d-1)
